@@ -386,7 +386,9 @@ func TestC01(t *testing.T) {
 			if (ord+ci)%nshards != shard {
 				return
 			}
-			for _, q := range queries[:2] {
+			// (requests whose subject is a subject set, with and without a relation: the SQL builders treat the
+			// empty relation of a subject set as a value, not as "any")
+			for _, q := range []refsem.Tuple{queries[0], queries[1], tss("o1", "a", "o2", ""), tss("o1", "a", "o2", "a")} {
 				ref := refsem.Check(w.Cfg, ts, q)
 				if ref.Untouched > 0 || !ref.InDomain || ref.SchemaError || ref.RewriteCycle {
 					continue
